@@ -35,11 +35,17 @@ type Solver struct {
 	Log     io.Writer // optional transcript
 	timeout int
 	scopes  []*Printer // printer per push level
+	hist    [][]string // per push level: the text sent (declarations, definitions, assertions)
 	dead    bool
 	LastErr string
+	// Fallback solvers asked (one-shot, whole script) when this one answers unknown.
+	Fallback  []string
+	Fallbacks int64
+	NoModel   bool // last Sat came from a fallback solver: GetValues re-runs that solver one-shot
+	lastFallback string
 }
 
-var TotalQueries, TotalNanos int64
+var TotalQueries, TotalNanos, TotalFallbacks int64
 
 func Start(kind string, timeoutMs int) (*Solver, error) {
 	var cmd *exec.Cmd
@@ -67,6 +73,7 @@ func Start(kind string, timeoutMs int) (*Solver, error) {
 	}
 	s := &Solver{Kind: kind, cmd: cmd, in: in, out: bufio.NewReaderSize(outp, 1<<16), timeout: timeoutMs}
 	s.scopes = []*Printer{NewPrinter()}
+	s.hist = [][]string{nil}
 	if kind != "cvc5" {
 		s.raw(fmt.Sprintf("(set-option :timeout %d)\n", timeoutMs))
 	} else {
@@ -136,12 +143,70 @@ func (s *Solver) Push() {
 		np.Declared[k] = true
 	}
 	s.scopes = append(s.scopes, np)
+	s.hist = append(s.hist, nil)
 	s.raw("(push 1)\n")
 }
 
 func (s *Solver) Pop() {
 	s.scopes = s.scopes[:len(s.scopes)-1]
+	s.hist = s.hist[:len(s.hist)-1]
 	s.raw("(pop 1)\n")
+}
+
+func (s *Solver) record(text string) {
+	if text != "" {
+		s.hist[len(s.hist)-1] = append(s.hist[len(s.hist)-1], text)
+	}
+}
+
+// Script returns a self-contained script equivalent to the current assertion stack.
+func (s *Solver) Script() string {
+	var sb strings.Builder
+	for _, lvl := range s.hist {
+		for _, t := range lvl {
+			sb.WriteString(t)
+		}
+	}
+	return sb.String()
+}
+
+// oneShot asks another solver binary for a verdict on the current stack.
+func (s *Solver) oneShot(kind string, timeoutMs int) Result {
+	r, _ := s.oneShotX(kind, timeoutMs, "")
+	return r
+}
+
+// oneShotX runs the current stack (+ extra commands after check-sat) in a fresh solver process.
+func (s *Solver) oneShotX(kind string, timeoutMs int, extra string) (Result, string) {
+	var cmd *exec.Cmd
+	script := "(set-option :produce-models true)\n" + s.Script() + "(check-sat)\n" + extra
+	switch kind {
+	case "z3":
+		cmd = exec.Command("/usr/bin/z3", "-in", fmt.Sprintf("-t:%d", timeoutMs))
+	case "z3-new":
+		cmd = exec.Command("z3-new", "-in", fmt.Sprintf("-t:%d", timeoutMs))
+	case "cvc5":
+		cmd = exec.Command("cvc5", "--lang=smt2", fmt.Sprintf("--tlimit=%d", timeoutMs))
+		script = "(set-logic ALL)\n" + script
+	default:
+		return Unknown, ""
+	}
+	cmd.Stdin = strings.NewReader(script)
+	out, _ := cmd.CombinedOutput()
+	txt := string(out)
+	if strings.Contains(txt, "(error") {
+		return Unknown, txt
+	}
+	lines := strings.Split(txt, "\n")
+	for i, l := range lines {
+		switch strings.TrimSpace(l) {
+		case "sat":
+			return Sat, strings.Join(lines[i+1:], " ")
+		case "unsat":
+			return Unsat, ""
+		}
+	}
+	return Unknown, txt
 }
 
 func (s *Solver) Depth() int { return len(s.scopes) - 1 }
@@ -153,6 +218,8 @@ func (s *Solver) Assert(t *Term) {
 	txt := p.Print(t)
 	s.raw(p.Pre.String())
 	s.raw("(assert " + txt + ")\n")
+	s.record(p.Pre.String())
+	s.record("(assert " + txt + ")\n")
 }
 
 // Declare makes sure variable v is declared in the current scope.
@@ -161,6 +228,7 @@ func (s *Solver) Declare(v *Term) {
 	p.Pre.Reset()
 	p.Print(v)
 	s.raw(p.Pre.String())
+	s.record(p.Pre.String())
 }
 
 // Check runs check-sat in the current scope.
@@ -193,6 +261,24 @@ func (s *Solver) Check() (Result, error) {
 	if res == Error {
 		return Error, fmt.Errorf("no verdict from solver: %v", lines)
 	}
+	if res == Unknown {
+		for _, fb := range s.Fallback {
+			t1 := time.Now()
+			r := s.oneShot(fb, 3*s.timeout)
+			d := time.Since(t1).Nanoseconds()
+			s.Nanos += d
+			atomic.AddInt64(&TotalNanos, d)
+			atomic.AddInt64(&TotalFallbacks, 1)
+			s.Fallbacks++
+			if r == Sat || r == Unsat {
+				// note: a Sat obtained this way has no model in the live process
+				s.NoModel = r == Sat
+				s.lastFallback = fb
+				return r, nil
+			}
+		}
+	}
+	s.NoModel = false
 	return res, nil
 }
 
@@ -211,6 +297,38 @@ func (s *Solver) GetValues(ts []*Term) ([]string, error) {
 	if len(ts) == 0 {
 		return nil, nil
 	}
+	if s.NoModel {
+		p := s.top()
+		p.Pre.Reset()
+		var sb strings.Builder
+		sb.WriteString("(get-value (")
+		for _, t := range ts {
+			sb.WriteString(p.Print(t))
+			sb.WriteByte(' ')
+		}
+		sb.WriteString("))\n")
+		s.raw(p.Pre.String())
+		s.record(p.Pre.String())
+		r, txt := s.oneShotX(s.lastFallback, 3*s.timeout, sb.String())
+		if r != Sat {
+			return nil, fmt.Errorf("solver: fallback solver %s could not reproduce its sat verdict for the model", s.lastFallback)
+		}
+		sx, _, err := parseSexp(txt, 0)
+		if err != nil {
+			return nil, err
+		}
+		var out []string
+		for _, pair := range sx.list {
+			if len(pair.list) != 2 {
+				return nil, fmt.Errorf("get-value: bad pair in %s", txt)
+			}
+			out = append(out, pair.list[1].String())
+		}
+		if len(out) != len(ts) {
+			return nil, fmt.Errorf("get-value (fallback): %d values for %d terms", len(out), len(ts))
+		}
+		return out, nil
+	}
 	p := s.top()
 	p.Pre.Reset()
 	var sb strings.Builder
@@ -221,6 +339,7 @@ func (s *Solver) GetValues(ts []*Term) ([]string, error) {
 	}
 	sb.WriteString("))\n")
 	s.raw(p.Pre.String())
+	s.record(p.Pre.String())
 	s.raw(sb.String())
 	lines, err := s.sync()
 	if err != nil {
